@@ -27,7 +27,7 @@ def _digest(L):
 def run(tier, replay=None):
     r = evidence.Run(PID, tier, "fault_enumeration")
     rng = random.Random(evidence.seed())
-    plans = [("core_maths", 3, None, 60), ("base_e_maths", 3, None, 60)] if tier == "quick" else \
+    plans = [("core_maths", 3, None, 70), ("base_e_maths", 3, None, 110)] if tier == "quick" else \
         [("core_maths", 3, None, None), ("base_e_maths", 3, None, 1200), ("core_maths", 4, None, 800), ("ext_maths", 3, None, 600)]
     nproc = 8
     for name, n, basis, budget in plans:
@@ -39,15 +39,16 @@ def run(tier, replay=None):
         L0 = lib.Library(s0, name, n)
         d0 = _digest(L0)
         census = base["census"]
-        places = [(b, c) for b, (fn, line, cnt) in enumerate(census) for c in range(1, cnt + 1)]
-        sites = sorted({(fn, line) for fn, line, cnt in census if cnt})
+        places = [(b, c) for b, (fn, line, cnt, callees) in enumerate(census) for c in range(1, cnt + 1)]
+        sites = sorted({(fn, line) for fn, line, cnt, callees in census if cnt})
         exhaustive = budget is None or budget >= len(places)
         chosen = places if exhaustive else []
         if not exhaustive:
             # every (function, with-line) site gets its share; inside a site seeded sampling over (block, call point)
+            # strata: (function, with-line, callee, calling line) -- every distinct call site inside every block kind is hit
             by_site = {}
             for b, c in places:
-                by_site.setdefault((census[b][0], census[b][1]), []).append((b, c))
+                by_site.setdefault((census[b][0], census[b][1], census[b][3][c - 1]), []).append((b, c))
             per = max(1, budget // max(1, len(by_site)))
             for k, v in sorted(by_site.items()):
                 chosen += rng.sample(v, min(per, len(v)))
